@@ -277,10 +277,11 @@ def plane_capsule(
   n = plane_normal
   axis = capsule_axis
 
-  # align contact frames with capsule axis
+  # align contact frames with capsule axis: the tangent is the axis made orthogonal to the
+  # normal (mju_makeFrame); the default tangent is used only when nothing is left of it
   b, b_norm = normalize_with_norm(axis - n * wp.dot(n, axis))
 
-  if b_norm < 0.5:
+  if b_norm < MJ_MINVAL:
     if -0.5 < n[1] and n[1] < 0.5:
       b = wp.vec3(0.0, 1.0, 0.0)
     else:
